@@ -6,9 +6,11 @@ from bibtexparser.model import (
     DuplicateBlockKeyBlock,
     DuplicateFieldKeyBlock,
     Entry,
+    Field,
     ParsingFailedBlock,
     String,
 )
+from bibtexparser.library import Library
 from bibtexparser.splitter import Splitter
 
 from .. import bibgen, harness, splitcheck
@@ -133,6 +135,16 @@ def o_deriv(deriv):
             f, c = _check(lib, e1 + e2, "splitter+library")
             if f:
                 return ((f[0].replace("splitter+library", "parse_string+library"), f[1], f[2]), True, sorted(cls))
+            # ... and into a library that was filled by hand (model objects without source position)
+            hand = [e for e in e1 if e["kind"] == "string" or (e["kind"] == "entry" and len({f["key"] for f in e["fields"]}) == len(e["fields"]))]
+            if hand:
+                for mode in ("splitter", "parse_string"):
+                    built = Library([String(e["key"], e["value"]) if e["kind"] == "string" else Entry(e["type"], e["key"], [Field(f["key"], f["value"]) for f in e["fields"]]) for e in hand])
+                    lib = Splitter(t2).split(library=built) if mode == "splitter" else bibtexparser.parse_string(t2, parse_stack=[], library=built)
+                    f, c = _check(lib, hand + e2, "splitter+library")
+                    cls |= c | {"parse-into-hand-built-library"}
+                    if f:
+                        return ((f[0].replace("splitter+library", mode + "+hand-built-library"), f[1], f[2]), True, sorted(cls))
     nontrivial = bool(cls & {"entry-collision", "string-collision"}) or any(
         e["kind"] == "entry" and len({f["key"] for f in e["fields"]}) < len(e["fields"]) for e in expected
     )
@@ -210,4 +222,4 @@ def run(chk):
         "field key is a DuplicateFieldKeyBlock with exactly the repeated keys, every occurrence kept, not registered. "
         "Non-trivial: >= 1 collision of entry keys, string keys or field keys."
     )
-    chk.required_classes = ["entry-collision", "string-collision", "triple-collision", "entry/string-same-name", "dupkey+dupfield", "live-after-dupfield-entry", "two-part-parse"]
+    chk.required_classes = ["entry-collision", "string-collision", "triple-collision", "entry/string-same-name", "dupkey+dupfield", "live-after-dupfield-entry", "two-part-parse", "parse-into-hand-built-library"]
